@@ -121,8 +121,11 @@ def handle (line : String) : String :=
                     let w := w1 ++ w2 ++ w3 ++ w4 ++ w5
                     (if w.isEmpty then "ok" else "fail", w, cls, ts)
               | _, _ =>
-                -- nothing selected and a bound is automatic: there is no image to write
-                (if real.status == 1 then "ok" else "fail", if real.status == 1 then [] else ["nothing-selected-not-rejected"], baseCls, stats 0 0 0 0)
+                -- nothing selected and a bound is automatic: "the lowest/highest address found" does not exist and neither the
+                -- property nor the manual says what the window then is; p2bin refuses (status 1) when both bounds are automatic and
+                -- writes a window from the explicit bound when only one is.  Only an abnormal end is judged here.
+                (if real.status == 1 || real.status == 0 then "ok" else "fail",
+                 if real.status == 1 || real.status == 0 then [] else ["nothing-selected-abnormal-end"], baseCls, stats 0 0 0 0)
             s!"model={mtag} status={if statusEq then "eq" else "ne"} file={fileEq} warn={warnEq} ck={ckEq} spec={spec} " ++
               s!"why={if why.isEmpty then "-" else ",".intercalate why} cls={if cls.isEmpty then "-" else ",".intercalate cls} {tailStats}" ++
               (match m with | .ok mo => (if fileEq == "ne" then s!" mfile={hex mo.file}" else "") ++ s!" mw={mo.warnings} win={mo.win.start}-{mo.win.stop}" | _ => "")
